@@ -4,6 +4,7 @@ import (
 	"encoding/json"
 	"fmt"
 	"math/rand"
+	"os"
 	"sort"
 	"strings"
 
@@ -369,6 +370,35 @@ func checkC08(c *core.Ctx) {
 		}
 	} else {
 		c.Internal("hand schema does not load: %s %s", l.Err, crash)
+	}
+	// small-scope exhaustive documents on a seven-type schema (c08small.go)
+	if os.Getenv("VERIF_C08_NOSMALL") == "" {
+		budget := 3
+		if c.Thorough() {
+			budget = 4
+		}
+		if l, ss, crash := loadReal([]*ast.Source{{Name: "small.graphql", Input: smallSDL}}); crash == "" && l.OK {
+			var docs []docCase
+			for _, q := range smallScopeDocs(budget) {
+				docs = append(docs, docCase{text: q, intent: "small-scope"})
+			}
+			c.SetExtra("small_scope_documents", len(docs))
+			c.SetExtra("small_scope_budget", budget)
+			_, _, ok := validateBatch(c, devs, ss, smallSDL, docs, func(dc docCase, o valObs, class string, spec, real []string) {
+				if class == "crash" {
+					c.Violation(fmt.Sprintf("Validate crashed: %s on %q (small schema)", o.Crash, dc.text), map[string]any{"sdl": smallSDL, "query": dc.text, "crash": o.Crash})
+					return
+				}
+				c.Violation(fmt.Sprintf("%s [small scope]: specification finds violated rules %v, validator reported %v: %q (small schema)", class, spec, real, dc.text),
+					map[string]any{"sdl": smallSDL, "query": dc.text, "what": class, "spec_rules": spec, "real_rules": real, "errors": fmt.Sprint(o.Errs)})
+			})
+			if !ok {
+				return
+			}
+			c.Logf("small scope: every document with at most %d selections over the small schema: %d documents decided by Rules.tla", budget, len(docs))
+		} else {
+			c.Internal("small schema does not load: %s %s", l.Err, crash)
+		}
 	}
 	c.SetExtra("generator_intent_disagreements", intentBad)
 	if intentBad > 0 && c.NumViolations() == 0 {
